@@ -99,3 +99,65 @@ func TestProbeShapes(t *testing.T) {
 	fmt.Println("signbytes", hex.EncodeToString(sb))
 	fmt.Println("pub", hex.EncodeToString(pv.PubKey().Bytes()), len(pv.PubKey().Bytes()))
 }
+
+func TestProbeIndep(t *testing.T) {
+	k := pkey(1)
+	p := types.SignParam
+	to := common.HexToAddress("0x1234")
+	tx := types.NewTransaction(7, to, big.NewInt(5), 0, nil, []byte("x"))
+	tx.Sign(types.GlobalSTDSigner, k)
+	var itx types.Tx = tx
+	b, _ := ser.EncodeToBytes(&itx)
+	it, _ := rlpDecode(b[7:])
+	w := &wireTx{kind: kTx, prefix: b[:7], body: it}
+	sg, _ := tripleOf(w.sigItems()[0])
+	a, st, _, _ := indepSender(w.signedFields(), sg, p)
+	from, _ := tx.From()
+	fmt.Printf("indep %x st=%v real %x hash %x\n", a, st, from, signingHash(w.signedFields(), p))
+
+	// legacy
+	secret := k.D.Bytes()
+	h := signingHash(w.signedFields(), nil)
+	priv, _ := btcecPriv(secret)
+	c, _ := btcecSignCompact(priv, h)
+	w2 := w.clone()
+	w2.body.kids[6] = bnum(big.NewInt(int64(c[0])))
+	w2.body.kids[7] = bstr(c[1:33])
+	w2.body.kids[8] = bstr(c[33:65])
+	var dec types.Tx
+	err := ser.DecodeBytes(w2.bytes(), &dec)
+	fmt.Println("legacy decode", err)
+	f2, err := dec.From()
+	fmt.Printf("legacy from %x err=%v (orig %x)\n", f2, err, from)
+
+	// high-s twin
+	w3 := w.clone()
+	s := w3.body.kids[8].num()
+	s.Sub(curveN, s)
+	w3.body.kids[8] = bnum(s)
+	v := w3.body.kids[6].num()
+	if v.Bit(0) == 1 { // 35+2p+recid ; 35 odd => recid0 -> odd
+		v.Add(v, big.NewInt(1))
+	} else {
+		v.Sub(v, big.NewInt(1))
+	}
+	w3.body.kids[6] = bnum(v)
+	dec = nil
+	err = ser.DecodeBytes(w3.bytes(), &dec)
+	f3, err2 := dec.From()
+	fmt.Printf("twin decode=%v from %x err=%v\n", err, f3, err2)
+	sg3, _ := tripleOf(w3.sigItems()[0])
+	a3, st3, _, _ := indepSender(w3.signedFields(), sg3, p)
+	fmt.Printf("twin indep %x %v\n", a3, st3)
+
+	// WithSignature after From cached
+	k2 := pkey(2)
+	sig2, _ := crypto.Sign(tx.SignHash().Bytes(), k2)
+	tx2, _ := tx.WithSignature(types.GlobalSTDSigner, sig2)
+	f4, _ := tx2.From()
+	fmt.Printf("WithSignature: from %x want %x (old %x)\n", f4, crypto.PubkeyToAddress(k2.PublicKey), from)
+	tx.Sign(types.GlobalSTDSigner, k2)
+	f5, _ := tx.From()
+	fmt.Printf("re-Sign: from %x want %x\n", f5, crypto.PubkeyToAddress(k2.PublicKey))
+	fmt.Printf("re-Sign hash %x\n", tx.Hash())
+}
